@@ -5,43 +5,54 @@
    every such operation preserves the branch tip, revno, every revision's testament, the tags and - where the
    layout has a working tree - the tree's content and pending changes.
 
-   A layout is [tree, br, repo, above, fmt, mfmt, sfmt, dirty, km, pure]:
+   A layout is [tree, br, repo, above, fmt, mfmt, sfmt, dirty, sync, pre, km, pure]:
      tree  : the location has a working tree
      br    : "local" (own branch) | "bound" (own branch bound to the master = heavy checkout) | "ref" (branch reference to
              the master = lightweight checkout)
      repo  : "own" | "shared" (the enclosing shared repository) | "none" (lightweight checkout) | "unused" (a
              lightweight checkout that was made `standalone`: an own repository nothing points to)
      above : the location sits inside a shared repository; sfmt its format ("none" otherwise)
-     fmt   : format of the location's control directory;  dirty : the working tree has pending changes
+     fmt   : format of the location's control directory;  dirty : the working tree has pending changes (and a pending merge)
+     sync  : the master's tip is the same as / ahead of / behind / diverged from the location's own tip
+     pre   : the enclosing shared repository already holds the tip's ancestry
    The usual names: standalone tree = [T, local, own]; branch = [F, local, own]; checkout = [T, bound, own];
    lightweight checkout = [T, ref, none]; tree / branch in a shared repository = [T/F, local, shared].
 
-   The CONTENT is one abstract value that no action touches (UNCHANGED content): the model is a channel.  What the
+   The CONTENT is one abstract value that no action touches, except its `refs` component (see DropsOffMainline): the
+   model is a channel.  What the
    model adds is the layout algebra: which operation is refused where, and which components exist afterwards. *)
 EXTENDS LayoutAlgebra
 CONSTANTS MaxSteps, InitFormats
 
 VARIABLES lay, content, last, steps
 vars == <<lay, content, last, steps>>
-Content0 == [tip |-> "r4", revno |-> 3, testaments |-> "T", tags |-> "G", basis |-> "r4"]
+\* refs: the revisions outside the tip's ancestry that a tag / a pending merge names are available at the location
+Content0 == [tip |-> "tip", revno |-> "n", testaments |-> "T", tags |-> "G", basis |-> "tip", refs |-> "present"]
 InitLayouts == {l \in [tree : BOOLEAN, br : {"local", "bound", "ref"}, repo : {"own", "shared", "none"}, above : BOOLEAN,
                        fmt : InitFormats, mfmt : InitFormats, sfmt : InitFormats \cup {"none"}, dirty : BOOLEAN,
-                       km : {TRUE}, pure : {TRUE}] :
-                    ValidLayout(l) /\ (l.above => l.sfmt = l.fmt) /\ l.mfmt = l.fmt}
+                       sync : Syncs, pre : BOOLEAN, km : {TRUE}, pure : {TRUE}] :
+                    ValidLayout(l) /\ (l.above => l.sfmt = l.fmt) /\ l.mfmt = l.fmt /\ (l.pre => l.repo = "own")}
 Init == lay \in InitLayouts /\ content = Content0 /\ last = "none" /\ steps = 0
-Do(p) == /\ steps < MaxSteps /\ steps' = steps + 1 /\ last # "diverges"
-         /\ lay' = p.lay /\ last' = p.out
-         /\ UNCHANGED content
+Do(p, drops) == /\ steps < MaxSteps /\ steps' = steps + 1 /\ last # "diverges"
+                /\ lay' = p.lay /\ last' = p.out
+                /\ content' = IF drops THEN [content EXCEPT !.refs = "absent"] ELSE content
 \* (the leading conjunct keeps the action's own name and argument on the edges of the dumped state graph)
-Reconfigure(k) == k \in Targets /\ Do(Impure(Plan(lay, k)))
+Reconfigure(k) == k \in Targets /\ Do(Impure(Plan(lay, k)), DropsOffMainline(lay, k))
 \* C52 is about going to the same or a NEWER format; attempts to go back are not explored
-Upgrade(f) == Rank(f) >= Rank(lay.fmt) /\ Do(PlanUpgrade(lay, f))
-UpgradeShared(f) == lay.above /\ Rank(f) >= Rank(lay.sfmt) /\ Do(PlanUpgradeShared(lay, f))
+Upgrade(f) == Rank(f) >= Rank(lay.fmt) /\ Do(PlanUpgrade(lay, f), FALSE)
+UpgradeShared(f) == lay.above /\ Rank(f) >= Rank(lay.sfmt) /\ Do(PlanUpgradeShared(lay, f), FALSE)
 Next == (\E k \in Targets : Reconfigure(k)) \/ (\E f \in Formats : Upgrade(f) \/ UpgradeShared(f))
 Spec == Init /\ [][Next]_vars
 
 LayoutOK == ValidLayout(lay)
-ContentPreserved == content = Content0
+\* tip, revno, testaments of the ancestry, tags and the tree basis: never touched by any planned operation
+ContentPreserved == [content EXCEPT !.refs = "present"] = Content0
+\* the off-mainline revisions are only ever lost by the operations DropsOffMainline names (the implementation-shaped
+\* model DOES lose them there: ReferencedKept is violated, which is what the recorded findings are about)
+DropsOnlyWhereNamed == [][content'.refs # content.refs => \E k \in Targets : DropsOffMainline(lay, k) /\ lay' = Impure(Plan(lay, k)).lay]_vars
+ReferencedKept == content.refs = "present"
+\* the tip of a location only goes away (branch turned into a reference) when the master has the very same tip
+TipNeverJumps == [][(lay.br # "ref" /\ lay'.br = "ref") => lay.sync = "same"]_vars
 \* a tree that survives keeps its pending changes; a tree that is created is clean; a refusal changes nothing
 PendingKept == [][(lay.tree /\ lay'.tree) => lay'.dirty = lay.dirty]_vars
 CreatedClean == [][(~lay.tree /\ lay'.tree) => ~lay'.dirty]_vars
